@@ -99,7 +99,9 @@ Record collector := mkColl { co_dest : dest; co_data : list sdentry; co_done : b
 Inductive gev :=
 | GQueue (e : sdentry) (d : dest)
 | GFlush (d : dest) (es : list sdentry)
-| GSend (es : list sdentry) (d : dest) (flag : bool) (sid : N).
+| GSend (es : list sdentry) (d : dest) (flag : bool) (sid : N)
+| GRefresh (st : store_id) (a : addr) (k : key) (ttl : N)      (* a TimedStore entry is (re)stored with this TTL *)
+| GExpire (st : store_id) (a : addr) (k : key).                 (* a TimedStore entry is removed by its expiry timer *)
 
 Record world := mkWorld {
   now : N;
